@@ -105,6 +105,7 @@ func (s *session) refLoop() {
 		}
 		for _, t := range d.deleted {
 			if addFileRef(t, -1) == 0 {
+				verifAt("f.remove", t)
 				s.tops.remove(storage.FileDesc{Type: storage.TypeTable, Num: t})
 			}
 		}
@@ -192,11 +193,13 @@ func (s *session) refLoop() {
 				panic("duplicate reference request")
 			}
 			ref[t.vid] = t
+			verifAt("f.ref", t.vid, t.files)
 			if t.vid > last {
 				last = t.vid
 			}
 
 		case d := <-s.deltaCh:
+			verifAt("f.delta", d.vid, d.added, d.deleted)
 			if _, exist := ref[d.vid]; !exist {
 				if _, exist2 := referenced[d.vid]; !exist2 {
 					panic("invalid release request")
@@ -209,10 +212,12 @@ func (s *session) refLoop() {
 			deltas[d.vid] = d
 
 		case t := <-s.relCh:
+			verifAt("f.rel", t.vid, t.files)
 			if _, exist := referenced[t.vid]; exist {
 				for _, tt := range t.files {
 					for _, t := range tt {
 						if addFileRef(t.fd.Num, -1) == 0 {
+							verifAt("f.remove", t.fd.Num)
 							s.tops.remove(t.fd)
 						}
 					}
@@ -228,6 +233,7 @@ func (s *session) refLoop() {
 			delete(ref, t.vid)
 
 		case id := <-s.abandon:
+			verifAt("f.abandon", id)
 			if id >= next {
 				abandoned[id] = struct{}{}
 			}
@@ -292,6 +298,7 @@ func (s *session) setVersion(r *sessionRecord, v *version) {
 		s.stVersion.releaseNB()
 	}
 	s.stVersion = v
+	verifAt("v.install", v, r)
 }
 
 // Get current unused file number.
